@@ -213,6 +213,11 @@ func TestC10_SlowConsumers(t *testing.T) {
 		for _, n := range stalledFiltered {
 			w.unstallNode(n)
 		}
+		if len(stalledFiltered) > 0 {
+			// their buffers are still full at this instant: until their consumers have drained them a
+			// marker can be dropped on the way (by design), which a plain barrier would report as a wedge
+			w.barrierRetry()
+		}
 		// 4. healthy nodes: the root witness holds the reference stream; healthy siblings agree
 		rootLog := renderEvs(w.nodes[0].eventsFrom(rootBase))
 		if !sameStrings(rootLog, ref) {
@@ -270,6 +275,9 @@ func TestC10_SlowConsumers(t *testing.T) {
 		}
 		// 5. release the stalled consumers and judge what they hold
 		overBuf := false
+		// (the events published while victims resume are not paced by barriers: their total stays well
+		// below one buffer, so that no healthy - possibly slow - consumer can overflow because of them)
+		loadBudget := kcache.EventBufsiz / 2
 		for _, v := range victims {
 			wTotal := v.witness.totalCount() - v.base
 			want := wTotal
@@ -285,10 +293,12 @@ func TestC10_SlowConsumers(t *testing.T) {
 				// (the pump may have taken one more event before it noticed the stall: counted from the stall point)
 				w.unstallNode(v.n)
 				count = func() int { return v.n.totalCount() - v.vbase }
-				if wTotal > kcache.EventBufsiz && rapid.Bool().Draw(t, "resumeUnderLoad") {
+				if wTotal > kcache.EventBufsiz && loadBudget >= 5 && rapid.Bool().Draw(t, "resumeUnderLoad") {
 					// the consumer resumes while events keep coming: what it receives must still be an
 					// in-order subsequence of what was published to it (checked below against the witness)
-					for i, nl := 0, rapid.IntRange(5, 40).Draw(t, "loadEvents"); i < nl; i++ {
+					nl := rapid.IntRange(5, min(40, loadBudget)).Draw(t, "loadEvents")
+					loadBudget -= nl
+					for i := 0; i < nl; i++ {
 						k := rapid.SampledFrom(keys).Draw(t, "k")
 						w.put(k[0], k[1], drawLabels(t))
 					}
